@@ -605,13 +605,7 @@ func c09(r *core.Run) {
 	}
 	c09ErrorsTested(r, "S4", sub)
 	// S10: one set of subscriptions per run
-	if sa := resolveSvc(r, "S10"); sa.Serve != nil {
-		for _, sc := range callsTo(root, sub) {
-			caller := sc.Parent()
-			inServe := caller == sa.Serve || (caller.Parent() == nil && p.Within(caller, sa.Serve))
-			r.Check(inServe && !core.IsGo(sc), "S10", core.FuncName(caller), "subscribes-only-at-start-up", p.InstrPos(sc), "the subscribing function is called from serve's start-up sequence", "the subscribing function is called outside serve's start-up sequence: the NATS client re-establishes every subscription on reconnect by itself, so subscribing again leaves each subject subscribed twice (more with every reconnect) - redundant subscriptions, and without a queue group every request is delivered and answered once per copy")
-		}
-	}
+	c09SubscribesOnlyAtStartUp(r, "S10", sub)
 	for _, sc := range callsTo(root, sub) {
 		serve := sc.Parent()
 		tested := false
@@ -1422,4 +1416,19 @@ func coveringOverWholeList(c ssa.CallInstruction) string {
 		}
 	}
 	return ""
+}
+
+// c09SubscribesOnlyAtStartUp: the subscribing function is called only from
+// serve's start-up sequence (C09.S10; C04 shares it - a second set of
+// subscriptions answers every request once more).
+func c09SubscribesOnlyAtStartUp(r *core.Run, rule string, sub *ssa.Function) {
+	p := r.P
+	root := p.FuncsOfPkg("")
+	if sa := resolveSvc(r, rule); sa.Serve != nil {
+		for _, sc := range callsTo(root, sub) {
+			caller := sc.Parent()
+			inServe := caller == sa.Serve || (caller.Parent() == nil && p.Within(caller, sa.Serve))
+			r.Check(inServe && !core.IsGo(sc), rule, core.FuncName(caller), "subscribes-only-at-start-up", p.InstrPos(sc), "the subscribing function is called from serve's start-up sequence", "the subscribing function is called outside serve's start-up sequence: the NATS client re-establishes every subscription on reconnect by itself, so subscribing again leaves each subject subscribed twice (more with every reconnect) - redundant subscriptions, and without a queue group every request is delivered and answered once per copy")
+		}
+	}
 }
